@@ -40,6 +40,14 @@ def target_functions():
     F["rng"] = ("rng(uint8)", [("push", 5)] + v8 + ["LT", ("ref", "ok"), "JUMPI"] + v8 + [("push", 10), "LT", ("ref", "ok"), "JUMPI"] + e2e.revert0() + [("label", "ok")] + sset(v8) + ["STOP"], "nonpayable")
     # two successful paths that differ *only* in one branch condition at the same position: if (v < 4) {} s = v
     F["setb"] = ("setb(uint8)", [("push", 4)] + v8 + ["LT", ("ref", "lo"), "JUMPI", ("label", "lo")] + sset(v8) + ["STOP"], "nonpayable")
+    # a stored symbolic word that one function compares with a constant (the then-block is the fall-through side) and another
+    # function forwards as the argument of a nested call: t = this.echo(s)
+    F["setw"] = ("setw(uint256)", sset(arg(0)) + ["STOP"], "nonpayable")
+    F["eq5"] = ("eq5()", e2e.if_then(S + [("push", 5), "EQ"], [("push", 1), ("push", 1), "SSTORE"], "e5") + ["STOP"], "nonpayable")
+    F["fwd"] = ("fwd()", [("pushn", 4, e2e.sel("echo(uint256)")), ("push", 224), "SHL", ("push", 0x80), "MSTORE"] + S + [("push", 0x84), "MSTORE",
+                          ("push", 32), ("push", 0xC0), ("push", 36), ("push", 0x80), "ADDRESS", ("push", 0xFFFFFF), "STATICCALL", "POP",
+                          ("push", 0xC0), "MLOAD", ("push", 1), "SSTORE", "STOP"], "nonpayable")
+    F["echo"] = ("echo(uint256)", arg(0) + ["PUSH0", "MSTORE", ("push", 32), "PUSH0", "RETURN"], "view")
     F["get"] = ("get()", S + ["PUSH0", "MSTORE"] + T + [("push", 32), "MSTORE", ("push", 64), "PUSH0", "RETURN"], "view")
     return F
 
@@ -49,7 +57,7 @@ FUNCS = target_functions()
 
 def mk_target(name, fnames):
     funcs, views, payable = {}, [], []
-    for f in list(fnames) + ["get"]:
+    for f in list(fnames) + (["echo"] if "fwd" in fnames else []) + ["get"]:
         sig, body, mut = FUNCS[f]
         funcs[sig] = body
         if mut == "view":
@@ -165,7 +173,7 @@ class Project:
 # ---------------------------------------------------------------------------
 
 ARG_DOMAIN = {"set(uint8)": [0, 1, 2, 3, 4, 5, 7, 9, 12, 255, 256 + 3], "rng(uint8)": [0, 2, 3, 4, 5, 7, 9, 10, 11, 12, 255],
-              "setb(uint8)": [0, 1, 2, 3, 4, 5, 7, 9, 12, 255]}
+              "setb(uint8)": [0, 1, 2, 3, 4, 5, 7, 9, 12, 255], "setw(uint256)": [0, 1, 5, 7, 2**255]}
 VALUE_DOMAIN = [0, 1]
 DEFAULT_SENDER = 0xBEEF
 
